@@ -350,7 +350,7 @@ package socket
 //@   prop C11 C10
 //@   nopanic
 //@   havoc
-//@   modifies ghost.held[addr(trans.lock)]
+//@   modifies ghost.held[addr(trans.lock)], ghost.cancel_calls
 //@   ensures [lock_released] ghost.held[addr(trans.lock)] == 0
 //@   ensures [dead_connection_leaves_the_pool] !(haskey(trans.conns, key) && trans.conns[key] == conn)
 
